@@ -321,6 +321,61 @@ theorem deal_session_unbound_as_coded :
 
 /-! ### 6. Honest run ⇒ everybody approves ⇒ certified -/
 
+/-- The state an honest deal leaves at the verifier it is addressed to: the verifier approves, and its
+aggregator is `Good` (nothing bad, the announced `t` and `sid`, a deal, approvals only) with the verifier's
+own slot filled. -/
+theorem honest_deal_good (cfg : Cfg) (hq : 0 < cfg.q) (me t sid : Nat) (f g : List Nat)
+    (hlen : cfg.variant = .rabin → f.length = g.length) (hT : validT t cfg.n = true) (hme : me < cfg.n) :
+    (step cfg (newVerifier cfg me) (.encDeal true true (honestDeal cfg sid t f g me))).2 = .approve ∧
+    ∃ a1, (step cfg (newVerifier cfg me) (.encDeal true true (honestDeal cfg sid t f g me))).1
+      = ⟨.verifier me, some a1⟩ ∧ Good cfg t sid a1 ∧ me ∈ a1.responses.map Prod.fst := by
+  have hacc : DealAcceptable cfg me (honestDeal cfg sid t f g me) :=
+    ⟨rfl, hT, fun _ => rfl, hme, honestDeal_shareOk cfg hq sid t f g hlen me, honestDeal_sidBound cfg sid t f g me⟩
+  have happ := (approve_iff_fresh cfg me true true _).mpr ⟨rfl, rfl, hacc⟩
+  refine ⟨happ, ?_⟩
+  have hne : ((honestDeal cfg sid t f g me).i != me) = false := by simp [honestDeal]
+  have hstep : ∀ agg0, (step cfg ⟨.verifier me, agg0⟩ (.encDeal true true (honestDeal cfg sid t f g me))) =
+      (⟨.verifier me, some (processDealOn cfg me (baseAgg agg0 (honestDeal cfg sid t f g me)) (honestDeal cfg sid t f g me)).1⟩,
+        (processDealOn cfg me (baseAgg agg0 (honestDeal cfg sid t f g me)) (honestDeal cfg sid t f g me)).2) := by
+    intro agg0; simp [step, processDeal, hne]
+  have hcore : ∀ a0 : Agg, a0.responses = [] → a0.badDealer = false → a0.timeout = false → a0.deal = none →
+      (cfg.variant = .rabin → a0.t = t) →
+      checkDeal cfg (adopt cfg a0 (honestDeal cfg sid t f g me)) (honestDeal cfg sid t f g me) = none →
+      Good cfg t sid (processDealOn cfg me a0 (honestDeal cfg sid t f g me)).1 ∧
+      me ∈ (processDealOn cfg me a0 (honestDeal cfg sid t f g me)).1.responses.map Prod.fst := by
+    intro a0 h1 h2 h3 h4 h5 h6
+    unfold processDealOn verifyDeal
+    simp only [h4, Option.isSome_none, Bool.false_and, Bool.false_eq_true, if_false, h6]
+    unfold addResponse
+    have : ¬ cfg.n ≤ me := by omega
+    simp only [this, decide_false, Bool.false_eq_true, if_false, adopt_responses, h1, List.lookup_nil,
+      Option.isSome_none, Option.isNone_none, List.nil_append]
+    refine ⟨⟨by simp [h2], by simp [h3], ?_, ?_, ?_, ?_, ?_⟩, by simp⟩
+    · cases hv : cfg.variant <;> simp [adopt, h4, hv, honestDeal]
+      exact h5 hv
+    · simp [adopt, h4, honestDeal]
+    · simp [adopt, h4]
+    · intro p hp; simp only [List.mem_singleton] at hp; subst hp
+      simp [honestDeal_sidBound cfg sid t f g me]
+    · exact ⟨by simp, by intro p hp; simp only [List.mem_singleton] at hp; subst hp; exact hme⟩
+  unfold newVerifier
+  rw [hstep]
+  have hck : ∀ a0 : Agg, a0.deal = none → (cfg.variant = .rabin → a0.t = t ∧ a0.sid = some sid) →
+      checkDeal cfg (adopt cfg a0 (honestDeal cfg sid t f g me)) (honestDeal cfg sid t f g me) = none := by
+    intro a0 h4 h5
+    rw [checkDeal_eq_none_iff]
+    refine ⟨hT, ?_, ?_, fun _ => rfl, hme, hacc.2.2.2.2.1⟩
+    · intro hv; simp [adopt, h4, hv, honestDeal]
+    · simp [adopt, h4, honestDeal]
+  cases hv : cfg.variant with
+  | pedersen =>
+    have := hcore {} rfl rfl rfl rfl (fun h => by rw [hv] at h; cases h) (hck {} rfl (fun h => by rw [hv] at h; cases h))
+    exact ⟨_, rfl, by simpa [baseAgg] using this.1, by simpa [baseAgg] using this.2⟩
+  | rabin =>
+    have := hcore (aggOfDeal (honestDeal cfg sid t f g me)) rfl rfl rfl rfl (fun _ => rfl)
+      (hck _ rfl (fun _ => ⟨rfl, rfl⟩))
+    exact ⟨_, rfl, by simpa [baseAgg] using this.1, by simpa [baseAgg] using this.2⟩
+
 /-- **Honest run ⇒ approve ⇒ certified.** An honest dealer (secret polynomial `f`, R: blinding
 polynomial `g` of the same length, threshold `t` in range) deals to verifier `me < n`: the verifier
 approves; and once it has seen the (signed, approving) responses of all other verifiers — in ANY
@@ -332,56 +387,8 @@ theorem honest_run_certified (cfg : Cfg) (hq : 0 < cfg.q) (me t sid : Nat) (f g 
     (step cfg (newVerifier cfg me) (.encDeal true true (honestDeal cfg sid t f g me))).2 = .approve ∧
     certified cfg (run cfg (newVerifier cfg me)
       (.encDeal true true (honestDeal cfg sid t f g me) :: js.map (fun j => Op.response sid j true true))) = true := by
-  have hacc : DealAcceptable cfg me (honestDeal cfg sid t f g me) :=
-    ⟨rfl, hT, fun _ => rfl, hme, honestDeal_shareOk cfg hq sid t f g hlen me, honestDeal_sidBound cfg sid t f g me⟩
-  have happ := (approve_iff_fresh cfg me true true _).mpr ⟨rfl, rfl, hacc⟩
+  obtain ⟨happ, a1, ha1, hgood, hmemk⟩ := honest_deal_good cfg hq me t sid f g hlen hT hme
   refine ⟨happ, ?_⟩
-  -- the state after the deal
-  have hrole := step_role cfg (newVerifier cfg me) (.encDeal true true (honestDeal cfg sid t f g me))
-  obtain ⟨a1, ha1, hgood, hmemk⟩ : ∃ a1, (step cfg (newVerifier cfg me) (.encDeal true true (honestDeal cfg sid t f g me))).1
-      = ⟨.verifier me, some a1⟩ ∧ Good cfg t sid a1 ∧ me ∈ a1.responses.map Prod.fst := by
-    have hne : ((honestDeal cfg sid t f g me).i != me) = false := by simp [honestDeal]
-    have hstep : ∀ agg0, (step cfg ⟨.verifier me, agg0⟩ (.encDeal true true (honestDeal cfg sid t f g me))) =
-        (⟨.verifier me, some (processDealOn cfg me (baseAgg agg0 (honestDeal cfg sid t f g me)) (honestDeal cfg sid t f g me)).1⟩,
-          (processDealOn cfg me (baseAgg agg0 (honestDeal cfg sid t f g me)) (honestDeal cfg sid t f g me)).2) := by
-      intro agg0; simp [step, processDeal, hne]
-    have hcore : ∀ a0 : Agg, a0.responses = [] → a0.badDealer = false → a0.timeout = false → a0.deal = none →
-        (cfg.variant = .rabin → a0.t = t) →
-        checkDeal cfg (adopt cfg a0 (honestDeal cfg sid t f g me)) (honestDeal cfg sid t f g me) = none →
-        Good cfg t sid (processDealOn cfg me a0 (honestDeal cfg sid t f g me)).1 ∧
-        me ∈ (processDealOn cfg me a0 (honestDeal cfg sid t f g me)).1.responses.map Prod.fst := by
-      intro a0 h1 h2 h3 h4 h5 h6
-      unfold processDealOn verifyDeal
-      simp only [h4, Option.isSome_none, Bool.false_and, Bool.false_eq_true, if_false, h6]
-      unfold addResponse
-      have : ¬ cfg.n ≤ me := by omega
-      simp only [this, decide_false, Bool.false_eq_true, if_false, adopt_responses, h1, List.lookup_nil,
-        Option.isSome_none, Option.isNone_none, List.nil_append]
-      refine ⟨⟨by simp [h2], by simp [h3], ?_, ?_, ?_, ?_, ?_⟩, by simp⟩
-      · cases hv : cfg.variant <;> simp [adopt, h4, hv, honestDeal]
-        exact h5 hv
-      · simp [adopt, h4, honestDeal]
-      · simp [adopt, h4]
-      · intro p hp; simp only [List.mem_singleton] at hp; subst hp
-        simp [honestDeal_sidBound cfg sid t f g me]
-      · exact ⟨by simp, by intro p hp; simp only [List.mem_singleton] at hp; subst hp; exact hme⟩
-    unfold newVerifier
-    rw [hstep]
-    have hck : ∀ a0 : Agg, a0.deal = none → (cfg.variant = .rabin → a0.t = t ∧ a0.sid = some sid) →
-        checkDeal cfg (adopt cfg a0 (honestDeal cfg sid t f g me)) (honestDeal cfg sid t f g me) = none := by
-      intro a0 h4 h5
-      rw [checkDeal_eq_none_iff]
-      refine ⟨hT, ?_, ?_, fun _ => rfl, hme, hacc.2.2.2.2.1⟩
-      · intro hv; simp [adopt, h4, hv, honestDeal]
-      · simp [adopt, h4, honestDeal]
-    cases hv : cfg.variant with
-    | pedersen =>
-      have := hcore {} rfl rfl rfl rfl (fun h => by rw [hv] at h; cases h) (hck {} rfl (fun h => by rw [hv] at h; cases h))
-      exact ⟨_, rfl, by simpa [baseAgg] using this.1, by simpa [baseAgg] using this.2⟩
-    | rabin =>
-      have := hcore (aggOfDeal (honestDeal cfg sid t f g me)) rfl rfl rfl rfl (fun _ => rfl)
-        (hck _ rfl (fun _ => ⟨rfl, rfl⟩))
-      exact ⟨_, rfl, by simpa [baseAgg] using this.1, by simpa [baseAgg] using this.2⟩
   obtain ⟨a2, h2, g2, m2, n2⟩ := good_responses cfg t sid me js a1 hgood
   rw [run_cons, ha1, h2]
   unfold certified
